@@ -363,8 +363,8 @@ def c08_exec(plan):
                 j = pick(u[1], lambda o: o.size == H[i].size)
                 ev["a"] = {"h": i, "other": {"handle": j}}
                 res = H[i].hd(H[j])
-            elif op in ("int", "sint", "str", "iter", "hw", "bytes", "bitlist_rev"):
-                i = pick(u[0], (lambda o: o.size > 0) if op == "sint" else None)
+            elif op in ("int", "sint", "str", "iter", "hw", "bytes", "bitlist_rev", "contains1", "first"):
+                i = pick(u[0], (lambda o: o.size > 0) if op in ("sint", "first") else None)
                 if i is None:
                     raise _Skip()
                 ev["a"] = {"h": i}
@@ -380,6 +380,10 @@ def c08_exec(plan):
                     res = H[i].bytes().hex()
                 elif op == "bitlist_rev":
                     res = H[i].bitlist(-1)
+                elif op == "contains1":
+                    res = (1 in H[i])              # an iteration that stops at the first hit
+                elif op == "first":
+                    res = next(iter(H[i]))         # an iteration abandoned after one element
                 else:
                     res = H[i].hw()
             elif op == "drop":
@@ -438,7 +442,7 @@ class C08(Machine):
             pb.step(c0, op="new", dst=d, size=w, val=rval(rng, w), src=rng.choice(["int", "int", "list", "bytes"]))
         clients = [c0] + [pb.client() for _ in range(nclients - 1)]
         budget = rng.randint(6, 22)
-        READS = ["int", "sint", "str", "iter", "hw", "bytes", "bitlist_rev"]
+        READS = ["int", "sint", "str", "iter", "hw", "bytes", "bitlist_rev", "contains1", "first", "iter", "hw"]
         for _ in range(budget):
             c = rng.choice(clients)
             r = rng.random()
@@ -499,7 +503,7 @@ class C08(Machine):
             elif r < 0.96:
                 pb.step(c, op=rng.choice(["getslice", "getslice", "getlist"]), u=u, dst=dst if rng.random() < 0.7 else None)
             else:
-                pb.step(c, op=rng.choice(["int", "sint", "str", "iter", "hw", "bytes", "bitlist_rev", "hd"]), u=u)
+                pb.step(c, op=rng.choice(["int", "sint", "str", "iter", "hw", "bytes", "bitlist_rev", "hd", "contains1", "first"]), u=u)
             if around:
                 pb.step(c, op=rd, u=[u[0], 0, 0, 0, 0])
         return pb.finish(rng)
@@ -697,6 +701,14 @@ class C08(Machine):
                     x = cells[hc[a["h"]]]
                     exp_res = R.bits_of(x[0], x[1])[::-1]
                     has_res = True
+                elif op == "contains1":
+                    exp_res = cells[hc[a["h"]]][0] != 0
+                    has_res = True
+                    probe("partial_iteration_read")
+                elif op == "first":
+                    exp_res = cells[hc[a["h"]]][0] & 1
+                    has_res = True
+                    probe("partial_iteration_read")
             except (KeyError, TypeError, AssertionError, ZeroDivisionError):
                 probe("harness_inconsistency")   # never on a plan as generated (driver turns it into exit 2)
                 break        # (only through shrinking) the recorded operation no longer fits the model state
